@@ -118,6 +118,16 @@ def cases(tier, seed):
     out = []
     for s, t0, t1, dt in DIRECTED:
         out.append({"solver": s, "system": "free_pm", "t0": t0, "t1": t1, "dt": dt, "grid": "directed"})
+    # long grids (thousands of steps) on the cheapest system: the end rule and the step must hold at step 5000 as at step 5
+    longs = [("Moreau", "0", "0.001"), ("Rattle", "0.3", "0.001"), ("BackwardEuler", "-0.5", "0.001"), ("DualStormerVerlet:LU", "10", "0.0001"),
+             ("ScipyIVP", "0", "0.0001"), ("ScipyDAE", "2.5", "0.001"), ("Moreau", "10", "0.0001"), ("Rattle", "-1.2", "0.0007")]
+    for j, (s, t0, dt) in enumerate(longs if tier == "quick" else longs * 4):
+        k = int(rng.integers(1200, 2200))
+        if j % 2 == 0:
+            t1, grid = str(Decimal(t0) + k * Decimal(dt)), "multiple"
+        else:
+            t1, grid = str(Decimal(t0) + (k - Decimal("0.37")) * Decimal(dt)), "non_multiple"
+        out.append({"solver": s, "system": "free_pm", "t0": t0, "t1": t1, "dt": dt, "grid": grid, "long": True})
     i = 0
     while len(out) < n:
         r = i % 10
@@ -319,6 +329,9 @@ def check_contract(ctx, sol, system, solver_name, cls, t0, t1, dt, truncated, de
                 ctx.violation(site, "time grid is not strictly increasing", det)
             elif fixed_step and np.abs(inc - dt).max() > 1e-9 * dt:
                 ctx.violation(site, "time grid increments differ from the requested step", {**det, "max_increment_error": float(np.abs(inc - dt).max())})
+            elif fixed_step and np.abs(t - (t0 + np.arange(nt) * dt)).max() > 1e-6 * dt:
+                # (no drift: the k-th instant is t0 + k dt up to a millionth of a step, also after thousands of steps)
+                ctx.violation(site, "time grid drifts away from t0 + k*dt", {**det, "max_drift_in_steps": float(np.abs(t - (t0 + np.arange(nt) * dt)).max() / dt)})
         # ---- ends at the first grid point at or after t1
         if truncated:
             ctx.count("truncated_runs")
